@@ -4,6 +4,8 @@
 //!   P frag FLAGS CTX F  STR(chunk)...      parse a fragment; CTX = html:NAME | svg:NAME | math:NAME,
 //!                                          F = f (hand a `form` element to parse_fragment_for_element) or -
 //!   P xml  FLAGS - -    STR(chunk)...      parse with xml5ever
+//!   R <calls joined by " ; ">             replay a (possibly contract-breaking) call sequence into the arena sink;
+//!                                          prints the same fields (differential test of the Coq monitor's glue)
 //! FLAGS: any of  s scripting_enabled, d drop_doctype, i iframe_srcdoc, q / l initial quirks / limited quirks,
 //!        e exact_errors, n no suspension points (one `feed` loop as Parser::process does), or -.
 //!
@@ -33,7 +35,7 @@ use std::io::{self, BufRead, Write};
 use std::panic::{catch_unwind, AssertUnwindSafe};
 use std::rc::Rc;
 use verif_harness::monitor::{arena_forest, AHandle, ArenaSink};
-use verif_harness::tracesink::{esc, fmt_attrs, fmt_qname, unesc, TraceOutput, TraceSink, Traced};
+use verif_harness::tracesink::{esc, fmt_attrs, fmt_qname, parse_trace, unesc, Replayer, TraceOutput, TraceSink, Traced};
 
 thread_local! {
     static LAST_PANIC: RefCell<String> = RefCell::new(String::new());
@@ -329,6 +331,36 @@ fn run_rcdom(case: &Case) -> String {
     }
 }
 
+fn run_replay(trace: &str) -> String {
+    let ops = match parse_trace(trace) {
+        Ok(o) => o,
+        Err(e) => return format!("BADTRACE {}", e),
+    };
+    let r = catch_unwind(AssertUnwindSafe(|| {
+        let sink = ArenaSink::default();
+        {
+            let mut rp = Replayer::new(&sink);
+            for op in ops.iter() {
+                if let Err(e) = rp.step(op) {
+                    return format!("BADTRACE {}", e);
+                }
+            }
+        }
+        let a = sink.finish();
+        let j = |v: &Vec<String>| if v.is_empty() { "ok".to_string() } else { v.join(" ") };
+        format!(
+            "A {} |AT| {} |AG| ok |AM| {} |AS|  |AR|  |R| = |RT| =",
+            trace,
+            arena_forest(&a.nodes),
+            j(&a.breaches)
+        )
+    }));
+    match r {
+        Ok(s) => s,
+        Err(_) => format!("A PANIC {} |AT| - |AG| - |AM| - |AS| - |AR| - |R| = |RT| =", esc(&last_panic())),
+    }
+}
+
 fn main() {
     std::panic::set_hook(Box::new(|info| {
         let msg = if let Some(s) = info.payload().downcast_ref::<&str>() {
@@ -346,6 +378,10 @@ fn main() {
     let mut out = io::BufWriter::new(out.lock());
     for line in stdin.lock().lines() {
         let line = line.unwrap();
+        if let Some(tr) = line.trim().strip_prefix("R ") {
+            writeln!(out, "{}", run_replay(tr)).unwrap();
+            continue;
+        }
         match parse_case(line.trim()) {
             Err(e) => writeln!(out, "BADCASE {}", e).unwrap(),
             Ok(case) => {
